@@ -62,6 +62,7 @@ type c13stack struct {
 	cache   string // ARP cache ("" = gateway only)
 	noGW    bool   // no default gateway MAC available
 	vpn     bool
+	gwmac   bool // the ARP cache is EMPTY (nothing on stdin) and the gateway MAC comes from --gwmac
 }
 
 var c13stacks = []c13stack{
@@ -71,6 +72,7 @@ var c13stacks = []c13stack{
 	{name: "cache-A-with-gateway", cache: `{"ip":"10.0.1.1","mac":"02:00:00:00:00:0a","vendor":""}` + "\n" + vGatewayCache},
 	{name: "cache-A-no-gateway", cache: `{"ip":"10.0.1.1","mac":"02:00:00:00:00:0a","vendor":""}` + "\n", noGW: true},
 	{name: "vpn", vpn: true},
+	{name: "empty-cache+gwmac", gwmac: true},
 }
 
 type c13gen struct {
@@ -201,7 +203,7 @@ func verifC13(c *drv.Ctx) {
 		if !c.Mine(idx) || c.Expired() {
 			return
 		}
-		if g.app && (st.cache != "" || st.vpn) {
+		if g.app && (st.cache != "" || st.vpn || st.gwmac) {
 			return // application scans have no ARP / link stage
 		}
 		if g.kind == "icmp" && st.name == "exclude-irrelevant" {
@@ -241,6 +243,9 @@ func verifC13(c *drv.Ctx) {
 			switch {
 			case st.vpn:
 				sc.World = c01vpnWorld
+			case st.gwmac:
+				sc.Stdin = ""
+				args = append(args, "--gwmac", "02:00:00:00:00:fe")
 			case st.cache != "":
 				sc.Stdin = st.cache
 			default:
